@@ -330,8 +330,11 @@ package io
 
 // ---- C09: DagReader.Seek follows io.Seeker -------------------------------------------------
 //@ func (*dagReader).Size
-//@   assumed
-//@   pure
+//@   prop C09
+//@   arith bv
+//@   requires dr != nil
+//@   modifies nothing
+//@   ensures[the_recorded_file_size] result == dr.size
 //@ func (*dagReader).resetPosition
 //@   assumed
 //@   modifies dr.offset, dr.currentNodeData, dr.dagWalker
@@ -344,7 +347,7 @@ package io
 //@   ensures[start] whence == io.SeekStart && err == nil ==> result0 == offset && dr.offset == offset
 //@   ensures[start_negative] whence == io.SeekStart && offset < 0 ==> err != nil && result0 == old(dr.offset) && dr.offset == old(dr.offset)
 //@   ensures[current] whence == io.SeekCurrent && err == nil ==> result0 == old(dr.offset) + offset && dr.offset == result0
-//@   ensures[end] whence == io.SeekEnd && err == nil ==> result0 == int64(res("call:dagReader.Size#0")) + offset && dr.offset == result0
+//@   ensures[end] whence == io.SeekEnd && err == nil ==> result0 == int64(old(dr.size)) + offset && dr.offset == result0
 //@   ensures[unknown_whence] whence != io.SeekStart && whence != io.SeekCurrent && whence != io.SeekEnd ==> err != nil && dr.offset == old(dr.offset)
 //@   ensures[never_negative] err == nil && old(dr.offset) >= 0 ==> result0 >= 0
 
